@@ -161,6 +161,14 @@ func init() {
 		"vNot":     func(e *Exec, fn *ssa.Function, a []Value) Value { return e.ctx.Not(a[0].(*Term)) },
 		"vImplies": func(e *Exec, fn *ssa.Function, a []Value) Value { return e.ctx.Implies(a[0].(*Term), a[1].(*Term)) },
 		"vIte":     func(e *Exec, fn *ssa.Function, a []Value) Value { return e.ctx.Ite(a[0].(*Term), a[1].(*Term), a[2].(*Term)) },
+		"vSharesMemory": func(e *Exec, fn *ssa.Function, a []Value) Value {
+			x, y := a[0].(*SliceV), a[1].(*SliceV)
+			return e.ctx.Bool(!isNil(x) && !isNil(y) && x.Arr == y.Arr)
+		},
+		"vStrSharesMemory": func(e *Exec, fn *ssa.Function, a []Value) Value {
+			x, y := a[0].(*StringV), a[1].(*SliceV)
+			return e.ctx.Bool(x.Alias != nil && !isNil(y) && x.Alias == y.Arr)
+		},
 		"vNote": func(e *Exec, fn *ssa.Function, a []Value) Value { e.note("harness:" + e.goString(a[0])); return nil },
 	}
 }
